@@ -88,6 +88,7 @@ def runwt(ids: list[str]) -> None:
         meta = json.loads((d / "meta.json").read_text())
         p = meta["property"]
         wt = f"/tmp/seed/{p}"
+        sh(f"git -C {wt} checkout -- .")
         sh(f"git -C {wt} checkout -q --detach {head}")
         rc, out = sh(f"git -C {wt} apply {d}/patch.diff")
         entry: dict = {"property": p}
